@@ -189,4 +189,202 @@ rewrite /=; split; last exact: IH (f_a1 (kstep a Q p)) _ (sp_Q1s sp) okps uFs.
 exact: data_step (proj2 okp) sp uF.
 Qed.
 
+
+(* C08 thm 1 for whole runs *)
+Fixpoint alt_all (fs : seq fper) : Prop :=
+  if fs is x :: fs' then
+    s_a (osb x (sback fs').2).1 = f_a1 (ff x) + f_Q1 (ff x) *m Tr (sback fs').2 /\ alt_all fs'
+  else True.
+
+Theorem smooth_alt_run a Q ps : is_sym Q -> all_ok ps -> alt_all (krun a Q ps).
+Proof.
+elim: ps a Q => [|p ps IH] a Q sQ; first by [].
+case=> okp okps; rewrite krun_cons /=.
+have sp := kf_step_spec a sQ okp.
+by split; [exact: smooth_alt_step sp | exact: IH (f_a1 (kstep a Q p)) _ (sp_Q1s sp) okps].
+Qed.
+
+(* the update pass (update_med): one_step_back without information from later periods returns the
+   filtered state a1, and it reproduces the observed data as well *)
+Lemma update_step a Q p (f : frec p) : step_spec a Q f ->
+  s_a (osb (mkFper p f) None).1 = f_a1 f.
+Proof. by move=> sp; rewrite (smooth_alt_step None sp) /Tr /= mulmx0 mulmx0 addr0. Qed.
+
+Fixpoint all_update (l : seq sper) : Prop :=
+  if l is s :: l' then (s_a (so s) = f_a1 (ff (sx s)) /\ meas_eq s) /\ all_update l' else True.
+
+Theorem update_run a Q ps : is_sym Q -> all_ok ps -> all_unit (krun a Q ps) ->
+  all_update (update_all (krun a Q ps)).
+Proof.
+elim: ps a Q => [|p ps IH] a Q sQ; first by [].
+case=> okp okps; rewrite krun_cons; case=> uF uFs.
+have sp := kf_step_spec a sQ okp.
+rewrite /=; split; last exact: IH (f_a1 (kstep a Q p)) _ (sp_Q1s sp) okps uFs.
+by split; [exact: update_step sp | exact: data_step (proj2 okp) sp uF].
+Qed.
+
+
+(* ---------------------------------------------------------------- *)
+(* deviation mode                                                    *)
+(* ---------------------------------------------------------------- *)
+Local Transparent kf_step one_step_back.
+
+(* the period seen in deviations from a steady state abar: no constants, data minus steady data *)
+Definition dev_period (abar : 'cV[F]_n) p : period :=
+  @mkPeriod M n nw (p_ny p) (p_T p) 0 (p_us p) (p_v p) (p_Z p) (p_H p) 0 (p_cov_w p) (p_w0 p)
+            (p_y p - (p_Z p *m abar + p_D p)).
+
+(* level results minus steady state *)
+Definition dev_frec abar p (f : frec p) : frec (dev_period abar p) :=
+  @mkFrec M n nw (dev_period abar p) (f_a0 f - abar) (f_Q0 f) (f_y0 f - (p_Z p *m abar + p_D p))
+          (f_F f) (f_Fi f) (f_Zt_Fi f) (f_G f) (f_Q1 f) (f_pe f) (f_a1 f - abar)
+          (f_P_cov_u f) (f_H_cov_w f).
+Definition dev_fper abar (x : fper) : fper := mkFper (dev_period abar (fp x)) (dev_frec abar (ff x)).
+Definition dev_sout abar p (o : sout p) : sout (dev_period abar p) :=
+  @mkSout M n nw (dev_period abar p) (s_a o - abar) (s_u o) (s_w o) (s_Q o).
+Definition dev_sper abar (s : sper) : sper := mkSper (dev_fper abar (sx s)) (dev_sout abar (so s)).
+
+Definition steady_of (abar : 'cV[F]_n) p : Prop := abar = p_T p *m abar + p_K p.
+Fixpoint all_steady abar (ps : seq period) : Prop :=
+  if ps is p :: ps' then steady_of abar p /\ all_steady abar ps' else True.
+
+Lemma dev_step abar a Q p : steady_of abar p ->
+  kstep (a - abar) Q (dev_period abar p) = dev_frec abar (kstep a Q p).
+Proof.
+move=> ss.
+have E0 : f_a0 (kstep (a - abar) Q (dev_period abar p)) = f_a0 (kstep a Q p) - abar.
+  rewrite /kf_step /=; case: (p_v p) => [v|]; rewrite mulmxBr addr0 [in RHS]ss; mx_abel.
+have Ey : f_y0 (kstep (a - abar) Q (dev_period abar p)) = f_y0 (kstep a Q p) - (p_Z p *m abar + p_D p).
+  rewrite -[LHS]/(p_Z p *m f_a0 (kstep (a - abar) Q (dev_period abar p)) + 0 + p_H p *m p_w0 p) E0.
+  rewrite -[f_y0 (kstep a Q p)]/(p_Z p *m f_a0 (kstep a Q p) + p_D p + p_H p *m p_w0 p) mulmxBr.
+  by mx_abel.
+have Ep : f_pe (kstep (a - abar) Q (dev_period abar p)) = f_pe (kstep a Q p).
+  rewrite -[LHS]/(p_y p - (p_Z p *m abar + p_D p) - f_y0 (kstep (a - abar) Q (dev_period abar p))) Ey.
+  rewrite -[RHS]/(p_y p - f_y0 (kstep a Q p)).
+  by mx_abel.
+have E1 : f_a1 (kstep (a - abar) Q (dev_period abar p)) = f_a1 (kstep a Q p) - abar.
+  rewrite -[LHS]/(f_a0 (kstep (a - abar) Q (dev_period abar p)) +
+                  f_G (kstep a Q p) *m f_pe (kstep (a - abar) Q (dev_period abar p))) E0 Ep.
+  rewrite -[f_a1 (kstep a Q p)]/(f_a0 (kstep a Q p) + f_G (kstep a Q p) *m f_pe (kstep a Q p)).
+  by rewrite addrAC.
+rewrite /dev_frec -E0 -Ey -E1 -Ep.
+by [].
+Qed.
+
+
+Lemma dev_osb abar (x : fper) st :
+  osb (dev_fper abar x) st = (dev_sout abar (osb x st).1, (osb x st).2).
+Proof.
+case: x => p f; rewrite /one_step_back /dev_fper /dev_sout /=.
+case: ifP => _ /=; last by [].
+by case: st => [[[N r] Tn]|] /=; rewrite addrAC.
+Qed.
+
+Lemma dev_krun abar a Q ps : all_steady abar ps ->
+  krun (a - abar) Q [seq dev_period abar p | p <- ps] = [seq dev_fper abar x | x <- krun a Q ps].
+Proof.
+elim: ps a Q => [|p ps IH] a Q; first by [].
+case=> ss sss; rewrite map_cons !krun_cons map_cons dev_step //.
+by rewrite -[f_a1 (dev_frec _ _)]/(f_a1 (kstep a Q p) - abar) -[f_Q1 (dev_frec _ _)]/(f_Q1 (kstep a Q p)) IH.
+Qed.
+
+Lemma dev_sback abar (fs : seq fper) :
+  sback [seq dev_fper abar x | x <- fs] = ([seq dev_sper abar s | s <- (sback fs).1], (sback fs).2).
+Proof.
+elim: fs => [|x fs IH]; first by [].
+by rewrite map_cons !sback_cons IH /= dev_osb.
+Qed.
+
+Lemma dev_update abar (fs : seq fper) :
+  update_all [seq dev_fper abar x | x <- fs] = [seq dev_sper abar s | s <- update_all fs].
+Proof.
+rewrite /update_all; elim: fs => [|x fs IH]; first by [].
+by rewrite /= -!/(map _ _) IH dev_osb.
+Qed.
+
+Lemma Lmap_dev A (g : fper -> A) abar (fs : seq fper) : (forall x, g (dev_fper abar x) = g x) ->
+  List.map g [seq dev_fper abar x | x <- fs] = List.map g fs.
+Proof. by move=> E; elim: fs => [|x fs IH] //=; rewrite E IH. Qed.
+
+Lemma dev_likelihood abar b (fs : seq fper) :
+  likelihood b [seq dev_fper abar x | x <- fs] = likelihood b fs
+  /\ contributions [seq dev_fper abar x | x <- fs] = contributions fs.
+Proof.
+rewrite /likelihood /contributions.
+rewrite (@Lmap_dev _ (@num_obs M n nw)); last by case.
+rewrite (@Lmap_dev _ (@log_det_F M n nw)); last by case.
+rewrite (@Lmap_dev _ (@pe_Fi_pe M n nw)); last by case.
+by rewrite (@Lmap_dev _ (@contribution M n nw)); last by case.
+Qed.
+
+(* C08 thm 4: running the filter and the smoother on (data - steady data), without constants, from
+   (initial state - steady state) returns the level-mode results minus the steady state: predicted,
+   updated and smoothed states are shifted by abar, predicted observables by Z abar + D, and every
+   covariance, gain, prediction error, smoothed shock, the likelihood and its contributions are
+   unchanged *)
+Theorem deviation_commutes_run abar a Q ps b : all_steady abar ps ->
+  let lev := krun a Q ps in
+  let dev := krun (a - abar) Q [seq dev_period abar p | p <- ps] in
+  [/\ dev = [seq dev_fper abar x | x <- lev],
+      (sback dev).1 = [seq dev_sper abar s | s <- (sback lev).1],
+      update_all dev = [seq dev_sper abar s | s <- update_all lev],
+      likelihood b dev = likelihood b lev &
+      contributions dev = contributions lev].
+Proof.
+move=> ss /=; rewrite dev_krun // dev_sback dev_update.
+by have [-> ->] := dev_likelihood abar b (krun a Q ps).
+Qed.
+
+
+(* ---------------------------------------------------------------- *)
+(* selection of the observed rows, output mapping                    *)
+(* ---------------------------------------------------------------- *)
+Section Mapping.
+Variables nu nyf nxi : nat.
+Variable s : solution M n nw nu nyf nxi.
+
+(* the measurement equations of a generated period are the full measurement block of the model,
+   read on the rows that are observed in that period *)
+Lemma gen_period_meas (d : pdata M n nw nu nyf) (alpha : 'cV[F]_n) (w : 'cV[F]_nw) :
+  let p := gen_period s d in
+  p_Z p *m alpha + p_D p + p_H p *m w = mc_sel (d_mask d) (so_Za s *m alpha + so_D s + so_H s *m w)
+  /\ p_y p = mc_sel (d_mask d) (d_y d).
+Proof. by rewrite /= !mc_sel_add !mc_sel_mul. Qed.
+
+Lemma gen_period_ok (d : pdata M n nw nu nyf) : ok_period (gen_period s d).
+Proof.
+by split; rewrite /is_sym /= /cov_from_std /=; apply/matrixP=> i j; rewrite !mxE eq_sym;
+   case: eqP => // ->.
+Qed.
+
+(* C08 thm 5: the values stored for the current-dated transition variables are the rows
+   curr_xi_indexes of Ua alpha (and of Ua Q Ua' on the diagonal); the mapping is linear *)
+Lemma xi_med_rows (a : 'cV[F]_n) : xi_med s a = mc_rows (so_curr_xi s) (so_Ua s *m a).
+Proof. by rewrite /xi_med /= mc_rows_mul. Qed.
+
+Lemma xi_med_entry (a : 'cV[F]_n) (i : 'I_(length (so_curr_xi s))) (r : 'I_nxi) j :
+  nth 0%N (so_curr_xi s) i = r -> xi_med s a i j = (so_Ua s *m a) r j.
+Proof. by move=> E; rewrite xi_med_rows (mc_rows_entry _ _ E). Qed.
+
+Lemma xi_med_sub (a abar : 'cV[F]_n) : xi_med s (a - abar) = xi_med s a - xi_med s abar.
+Proof. by rewrite /xi_med /= mulmxBr. Qed.
+
+Lemma xi_var_entry (Q : 'M[F]_n) (i : 'I_(length (so_curr_xi s))) (r : 'I_nxi) :
+  nth 0%N (so_curr_xi s) i = r ->
+  let U := mc_rows (so_curr_xi s) (so_Ua s) in
+  (U *m Q *m U^T) i i = (so_Ua s *m Q *m (so_Ua s)^T) r r.
+Proof.
+move=> E /=; rewrite -mc_rows_mul !mxE; apply: eq_bigr => l _.
+by rewrite (mc_rows_entry _ _ E) 2![_^T _ _]mxE (mc_rows_entry _ _ E).
+Qed.
+
+
+
+(* the periods generated from a model solution and a data set always satisfy the side conditions
+   (the shock covariances are diagonal matrices of squared standard deviations) *)
+Lemma all_ok_gen (data : seq (pdata M n nw nu nyf)) : all_ok (List.map (gen_period s) data).
+Proof. by elim: data => [|d data IH] //=; split; [exact: gen_period_ok | exact: IH]. Qed.
+
+End Mapping.
+
 End SmootherProofs.
